@@ -41,6 +41,8 @@ func c14Lines() []string {
 		"[", "[a", "[a ", "[a=", "[a=\"x", "[a n=]", "[a n=1", "[a/", "[/", "[/a", "[1a]", "[ ]", "[a b]", "[a=1.]x", "[a=1.x]", "[=1]", "[a]x[/b]", "[select/]", "[select value=z a=\"1\"/]",
 		"[plural value=x one=\"1\"/]", "[ordinal value=1.5 one=\"1\"/]", "[nomarkup]never closed", "[select value=a a=\"1\"]never closed", "[a trimwhitespace=3/] x", "x\\", "\xff[a]\xff[/a]",
 		"[a]x[/a] [b n=007]y[/b] z", "[a x=0.007 /]", "Ann: [select value=a a=\"b\"/] [a/] c",
+		// whitespace handling around self-closing markers depends on what was read just before them
+		"\\[[a/] ok", "\\][b/]  x", "[a/] y", "x[a/] y", "x [a/]y", "[a][b/] y[/a]", "ends with space ", "ends with tab\t", "[a trimwhitespace=true]x [b/] y[/a]", "\\[[a trimwhitespace=true] x[/a]",
 	}
 	// systematic part: prefixes of a long marked-up line (cuts at every byte leave every kind of partial marker)
 	long := "Zoé: [a n=12 s=\"x y\"]日[b/] [/a][select value=a a=\"%!\"/][/]"
